@@ -70,6 +70,10 @@ def run(ctx):
             d = docgen.gen_doc(rng)
             bad = rng.choice(['<desc>x & y</desc>', '<title>a &b c</title>', '<1a/>', '<rect wh="2" text="a"/><b@d/>', '<text>AT&T</text>'])
             docs.append((d.replace('</svg>', bad + '</svg>'), 'malformed-input'))
+            # a comment that is not well-formed inside content that is copied through (a real SVG document, a nested namespaced svg)
+            cm = rng.choice(['<!-- a -- b -->', '<!-- x --->', '<!----->'])
+            docs.append((rng.choice(['<svg xmlns="http://www.w3.org/2000/svg">%s<rect width="1" height="1"/></svg>' % cm,
+                                     '<svg><rect wh="2"/><svg xmlns="http://www.w3.org/2000/svg">%s<g/></svg></svg>' % cm]), 'malformed-input'))
     # documents combining every feature (loops, reuse, connectors, containment, text placement ...): the output of each must be
     # well-formed too
     import docfuzz
